@@ -40,7 +40,7 @@ ASSUMPTIONS = ["containment is decided lexically on normalised absolute paths; t
                "audit events open / os.listdir / os.scandir are what 'serving a file' can use; os.stat has no audit event, so mere existence probing outside the root is not observed",
                "trusted base: vf/engines/fsaudit.py (self-tested), the in-memory transport, reactor.iterate(0) pumping"]
 SHARDS = {"quick": 4, "thorough": 16}
-FLOORS = {"child_calls": 2000, "preauth_calls": 2000, "descendant_calls": 1000, "descendant_segment_lists": 1000, "refused_insecure": 1000,
+FLOORS = {"child_calls": 2000, "preauth_calls": 2000, "descendant_calls": 1000, "descendant_segment_lists": 1000, "chain_steps_checked": 500, "refused_insecure": 1000,
           "returned_paths_checked": 1000, "requests": 500, "audit_events_in_base": 500, "responses_200_inside": 100,
           "hostile_requests": 300}
 READY = True
@@ -127,6 +127,37 @@ def classify_escape(method, result_path, parent_path):
     return "%s-escape" % method.lower()
 
 
+def child_chain_case(ctx, FilePath, InsecurePath, base, parent_rel, mode, names):
+    """p.child(a).child(b)...: every step is judged against the object it was called on (results reused as parents)."""
+    ptext = os.path.join(base, parent_rel) if parent_rel else base
+    cur = FilePath(os.fsencode(ptext) if mode[0] == "b" else ptext)
+    top = cur.path
+    ctx.count("child_chains")
+    ctx.evaluated()
+    ctx.distinct(("chain", parent_rel, mode, tuple(names)))
+    for depth, t in enumerate(names):
+        s = t.replace("{BASE}", base)
+        arg = os.fsencode(s) if mode[1] == "b" else s
+        ctx.count("child_calls")
+        try:
+            res = cur.child(arg)
+        except InsecurePath:
+            ctx.count("refused_insecure")
+            return
+        except Exception as e:
+            ctx.count("other_exceptions")
+            ctx.seen("other_exception_types", type(e).__name__)
+            return
+        ctx.count("returned_paths_checked")
+        ctx.count("chain_steps_checked")
+        if not contained(res.path, cur.path, direct=True) or not contained(res.path, top, direct=False):
+            ctx.violation(classify_escape("child", res.path, cur.path), "FilePath.child (step %d of a chain) returned a path outside the object it was called on" % depth,
+                          {"method": "child-chain", "parent_rel": parent_rel, "mode": mode, "names": names, "step": depth,
+                           "called_on": cur.path, "argument": arg, "returned": res.path, "chain_start": top})
+            return
+        cur = res
+
+
 def filepath_case(ctx, FilePath, InsecurePath, base, parent_rel, mode, method, name_t, sample=False):
     """One call.  name_t is the name template (str, '{BASE}' placeholder); for descendant a list."""
     ptext = os.sep if parent_rel == "/" else os.path.join(base, parent_rel) if parent_rel else base
@@ -207,6 +238,12 @@ def run_filepaths(ctx, base):
         parent_rel = rng.choice(PARENTS[:2]) if rng.random() < 0.6 else rng.choice(PARENTS)
         pn = os.path.basename(parent_rel) if parent_rel not in ("", "/") else os.path.basename(base) if parent_rel == "" else "tmp"
         mode = rng.choice(MODES)
+        if rng.random() < 0.08:
+            parent_rel2 = rng.choice(["root", "root/sub", "rootX"])
+            pn2 = os.path.basename(parent_rel2)
+            names = [rng.choice(["a", "sub", "deep", "..", ".", "", pn2 + "X", pn2, "x"]) if rng.random() < 0.7 else gen_name(rng, pn2) for _ in range(rng.randint(2, 4))]
+            child_chain_case(ctx, FilePath, InsecurePath, base, parent_rel2, mode, names)
+            continue
         method = rng.choice(["child", "preauthChild", "preauthChild", "descendant"])
         if method == "descendant":
             if rng.random() < 0.55:
@@ -268,6 +305,7 @@ class Web:
         self.reactor, self.Clock, self.server, self.static, self.SimTransport = reactor, Clock, server, static, SimTransport
         self.base = base
         self.root = os.path.join(base, "root")
+        self.sites = {}
         self.log = LogCapture()
         self.pub = globalLogPublisher
         self.pub.addObserver(self.log)
@@ -281,10 +319,14 @@ class Web:
     def request(self, cfg, method, path_t):
         path = path_t.replace("{BASENAME}", quote(os.path.basename(self.base))).replace("{BASE}", quote(self.base, safe="").replace("%2F", "%2f"))
         raw_path = path.encode("latin-1")
-        f = self.static.File(self.root, ignoredExts=cfg["ignoredExts"])
-        if cfg["index"] is not None:
-            f.indexNames = list(cfg["index"])
-        site = self.server.Site(f, reactor=self.Clock())
+        key = (tuple(cfg["ignoredExts"]), None if cfg["index"] is None else tuple(cfg["index"]))
+        site = self.sites.get(key)
+        if site is None:
+            # one long-lived Site / root File per configuration serves all requests (state left over between requests)
+            f = self.static.File(self.root, ignoredExts=cfg["ignoredExts"])
+            if cfg["index"] is not None:
+                f.indexNames = list(cfg["index"])
+            site = self.sites[key] = self.server.Site(f, reactor=self.Clock())
         ch = site.buildProtocol(None)
         t = self.SimTransport()
         ch.makeConnection(t)
